@@ -98,6 +98,12 @@ static std::string cacher_op(const PDU* root, const Bytes& want, int variant) {
     c2.reset(c1->clone()); if (variant & 2) c1.reset();
     PDU::serialization_type s2 = c2->serialize(); if (Bytes(s2.begin(), s2.end()) != want) return "clone of the cacher serializes differently from the tree";
     if (c2->inner_pdu() || c2->parent_pdu()) return "cacher clone is linked to another layer";
+    if (variant & 8) {      // a cacher that owns a layer below it: clones and copies carry that layer along
+        c2->inner_pdu(RawPDU("below the cacher")); std::unique_ptr<PDU> c3(c2->clone());
+        if (!c3->inner_pdu() || c3->inner_pdu()->pdu_type() != PDU::RAW || c3->inner_pdu()->parent_pdu() != c3.get()) return "clone of a cacher that owns a child layer lost that layer or links it wrongly";
+        Packet pk(*c2); if (!pk.pdu() || !pk.pdu()->inner_pdu()) return "Packet built from a cacher that owns a child layer lost that layer";
+        Packet pk2(pk); if (!pk2.pdu()->inner_pdu() || pk2.pdu()->inner_pdu() == pk.pdu()->inner_pdu()) return "copy of a Packet holding a cacher shares or loses the child layer";
+        delete c2->release_inner_pdu(); }
     if (variant & 4) { EthernetII e; e.inner_pdu(c2.release()); if (e.inner_pdu()->parent_pdu() != &e) return "cacher stacked under a layer has a wrong parent link"; std::unique_ptr<PDU> e2(e.clone()); if (e2->inner_pdu()->parent_pdu() != e2.get()) return "clone of a tree holding a cacher has a wrong parent link"; }
     return "";
 }
@@ -146,8 +152,8 @@ struct OwnEngine : Engine {
             if (o == "new") { add_new(); continue; }
             KV k; k.set("op", o).set("a", (int64_t)cfg.below(64)).set("b", (int64_t)cfg.below(64)).set("x", (int64_t)cfg.below(1000));
             if (o == "tcpstream") { static const uint32_t isns[5] = { 1000, 0xffffffe0u, 0xfffffff5u, 0x7ffffff0u, 0 }; k.set("kind", (int64_t)cfg.below(4)).setu("cisn", isns[cfg.below(5)]).setu("sisn", isns[cfg.below(5)]); }
-            if (o == "cacher") k.set("kind", (int64_t)cfg.below(8));
-            if (o == "optassign") k.set("s1", (int64_t)cfg.pick(std::vector<int>{0, 1, 7, 8, 9, 16, 40, 200})).set("s2", (int64_t)cfg.pick(std::vector<int>{0, 1, 7, 8, 9, 16, 40, 200})).set("self", cfg.chance(0.2) ? 1 : 0).set("move", cfg.chance(0.4) ? 1 : 0);
+            if (o == "cacher") k.set("kind", (int64_t)cfg.below(16));
+            if (o == "optassign") k.set("s1", (int64_t)cfg.pick(std::vector<int>{0, 1, 7, 8, 9, 16, 40, 200})).set("s2", (int64_t)cfg.pick(std::vector<int>{0, 1, 7, 8, 9, 16, 40, 200})).set("self", cfg.chance(0.2) ? 1 : 0).set("move", cfg.chance(0.4) ? 1 : 0).set("lenfield", cfg.chance(0.3) ? (int64_t)cfg.pick(std::vector<int>{0, 1, 4, 9, 40, 255}) : -1);
             if (faults && cfg.chance(0.5)) k.set("fail", (int64_t)cfg.small(1, 12));
             p.steps.push_back(k.line());
         }
@@ -249,13 +255,14 @@ struct OwnEngine : Engine {
                 else if (op == "optassign") {
                     size_t s1 = (size_t)k.num("s1"), s2 = (size_t)k.num("s2"); Bytes d1(s1, 0x11), d2(s2, 0x22); for (size_t i = 0; i < s2; ++i) d2[i] = (uint8_t)(i * 7 + x);
                     TCP::option* o1 = 0; TCP::option* o2 = 0; int64_t armed = ledger::fail_countdown; ledger::fail_countdown = 0;
-                    SUT(o1 = new TCP::option(TCP::SACK, d1.begin(), d1.end()); o2 = new TCP::option(TCP::MSS, d2.begin(), d2.end())); bool self = k.num("self");
+                    const int64_t lenfield = k.num("lenfield", -1);      /* an option whose length field is not the size of its data (the 4-argument constructor): copies keep both */
+                    SUT(o1 = new TCP::option(TCP::SACK, d1.begin(), d1.end()); o2 = lenfield >= 0 ? new TCP::option(TCP::MSS, (uint16_t)lenfield, d2.begin(), d2.end()) : new TCP::option(TCP::MSS, d2.begin(), d2.end())); bool self = k.num("self");
                     struct Del { TCP::option* a; TCP::option* b; ~Del() { ledger::Scope s; delete a; delete b; } } del = { o1, o2 };
                     ledger::fail_countdown = armed;
                     if (self) { SUT(*o2 = *o2); st.inc("probe.option_self_assignment"); } else if (k.num("move", 0)) { SUT(*o1 = std::move(*o2)); st.inc("probe.option_move_assignment"); } else SUT(*o1 = *o2);
                     ledger::fail_countdown = 0;
                     TCP::option& r = self ? *o2 : *o1;
-                    if (r.data_size() != s2 || (s2 && memcmp(r.data_ptr(), d2.data(), s2) != 0) || r.option() != TCP::MSS) result = Verdict::bad("own:option-assign-not-equal", fmt("option assignment (%zu <- %zu bytes%s) did not produce an equal option", s1, s2, self ? ", self" : ""), idx);
+                    if (r.data_size() != s2 || (s2 && memcmp(r.data_ptr(), d2.data(), s2) != 0) || r.option() != TCP::MSS || r.length_field() != (size_t)(lenfield >= 0 ? lenfield : (int64_t)s2)) result = Verdict::bad("own:option-assign-not-equal", fmt("option assignment (%zu <- %zu bytes%s) did not produce an equal option", s1, s2, self ? ", self" : ""), idx);
                     if ((s1 > 8) != (s2 > 8)) st.inc("probe.option_assign_across_small_buffer_threshold"); }
                 else if (op == "tcpstream" || op == "cacher" || op == "reasm") {
                     // self-contained: no allocation fault is armed (the op's own scaffolding would not survive it), every object is gone at the end
